@@ -465,7 +465,8 @@ above (`clauseNames` ↔ `names_unique`, `clauseAtomic` ↔ `bulk_atomic_*`, `cl
 `bulk_applies_*`, `clauseMatch` ↔ `match_flag_exact` / `owner_forwards`, `clauseFresh` ↔
 `copy_independent` / `sublist_independent_*`, `clauseShare` ↔ `share_aliases_*`, `clauseDelete` ↔
 `delete_indices_exact` / `delete_name_exact`, `clauseAdd` ↔ `add_dup_refused`, `clauseFrame` ↔
-`frame`, `clauseLookup` ↔ `lookup_exact`). -/
+`frame`, `clauseLookup` ↔ `lookup_exact`, `clauseUpdate` ↔ `setParameterValue_exact` /
+`share_collision_updates`, `clauseDeleteNames` ↔ `deleteParameters_spec`). -/
 
 /-- **check_sound**: from every state satisfying the invariant, every operation of the model
 satisfies every clause, for any number `n` of observed registers. -/
@@ -473,7 +474,8 @@ theorem check_sound (n : Nat) (s : State) (inv : Inv s) (op : Op) :
     checkStep n s op (step s op).2.out (step s op).2.fired (step s op).1 = none := by
   simp only [checkStep, clauseNames_sound n inv op, clauseOk_sound n inv op, clauseAtomic_sound n inv op,
     clauseFrame_sound n s op, clauseApplies_sound inv op, clauseMatch_sound inv op, clauseFresh_sound inv op,
-    clauseShare_sound inv op, clauseDelete_sound op, clauseAdd_sound op, clauseLookup_sound op]
+    clauseShare_sound inv op, clauseDelete_sound op, clauseAdd_sound op, clauseLookup_sound op,
+    clauseUpdate_sound inv op, clauseDeleteNames_sound op]
   rfl
 
 /-- … hence along every history from the empty machine (without `setNamespace`). -/
